@@ -1,5 +1,6 @@
 """C45 — command-line arguments reach commands unchanged (mitmproxy/command_lexer.py, command.py, types.py _StrType)."""
 import itertools, json, logging, os, re
+from collections.abc import Sequence
 from common.check import PropertyCheck, Skip
 import mitmproxy.types
 from mitmproxy import command, command_lexer, exceptions
@@ -61,15 +62,51 @@ class _Cmds:
     def t_ibp(self, a: int, b: bool, c: mitmproxy.types.Path) -> None:
         self.got = ("t.ibp", [a, b, c])
 
+    @command.command("t.q")
+    def t_q(self, *args: Sequence[str]) -> None:
+        self.got = ("t.q", [list(a) for a in args])
+
+    @command.command("t.c")
+    def t_c(self, a: mitmproxy.types.CutSpec) -> None:
+        self.got = ("t.c", [list(a)])
+
+    @command.command("t.m")
+    def t_m(self, *args: mitmproxy.types.Marker) -> None:
+        self.got = ("t.m", list(args))
+
+    @command.command("t.opts")
+    def t_opts(self) -> Sequence[str]:
+        return list(CHOICES)          # the options command of the Choice parameter below; it must not touch `got`
+
+    @command.command("t.ch")
+    @command.argument("a", type=mitmproxy.types.Choice("t.opts"))
+    def t_ch(self, a: str, *rest: str) -> None:
+        self.got = ("t.ch", [a] + list(rest))
+
+    # parameter defaults: bind(*args) + apply_defaults()
+    @command.command("t.d")
+    def t_d(self, a: str, b: str = "dflt", c: int = 7) -> None:
+        self.got = ("t.d", [a, b, c])
+
+    @command.command("t.dr")
+    def t_dr(self, a: mitmproxy.types.CmdArgs, b: bool = True, *rest: str) -> None:
+        self.got = ("t.dr", [a, b] + list(rest))
+
 
 # command key -> (types of the positional parameters, type of *rest or None); 's' = str, 'v' = verbatim (CmdArgs)   (= C45Driver.cmds)
 SIGS = {"s": ([], "s"), "v": ([], "v"), "one": (["s"], None), "two": (["s", "v"], None), "mix": (["v"], "s"), "none": ([], None),
         "i": ([], "i"), "b": ([], "b"), "p": ([], "p"), "ibp": (["i", "b", "p"], None)}
-CONV = ["i", "b", "p", "ibp"]
+SIGS.update({"q": ([], "q"), "c": (["c"], None), "m": ([], "m"), "ch": (["ch"], "s"), "opts": ([], None), "d": (["s", "s", "i"], None), "dr": (["v", "b"], "s")})
+CONV = ["i", "b", "p", "ibp", "q", "c", "m", "ch", "opts", "d", "dr"]
+CHOICES = ["a", "b c", "", "'q'"]                       # = C45Driver.choiceOpts
 os.environ["HOME"] = "/h/me/"          # = C45Driver.env; the password database entry relied on is root -> /root
 CONV_TEXTS = {"i": ["5", "-3", "+7", "007", " 5 ", "1_0", "_1", "1__0", "\u0663\u0664", "\uff15", "5\x00", "", "abc", "1 2", "\xa07", "\x1c5", "0x10", "1e3",
                     "12345678901234567890123", "-0", "+", "\u0967_\u0968", "\x0b7\x0c", "true"],
               "b": ["true", "false", "True", "", "1", "0", "yes", " true", "true ", "toggle", "TRUE", "fals"],
+              "q": ["a,b", " a , b\t", "", ",", "a,,b", "\xa0x\u3000,\x1fy\x85", "a b", ",a", "x\x0b,\x0c", "'q,'", "\u2028z", "a\x00 ,b"],
+              "c": ["request.method,response.status_code", " a , b", "", ",", "x", "a,,", "request.header[x,y]"],
+              "m": ["true", "false", ":red_circle:", ":+1:", ":default:", "", "True", ":nosuchemoji:", " true", ":100:", "x"],
+              "ch": ["a", "b c", "", "'q'", "b", "A", " a", "b  c"],
               "p": ["~", "~/x", "~//x/", "~root", "~root/a b", "~nosuchuser/x", "a~", "~~", "~/", "x/~", "~\x00", "~a\x00b/c", "", "/abs/p", "rel/p", "~root/", "~/\u00e9",
                     "C:\\new", "~'q\"", " ~", "~ /x"]}
 
@@ -239,14 +276,18 @@ class Check(PropertyCheck):
                   "transcribed and tied (int = Python int() shared with C44, bool, path = posixpath.expanduser with $HOME / password "
                   "database as parameters): typed_execute_extends_execute (the typed model the driver runs equals the str/verbatim one), "
                   "execute_delivers_typed_values (all five parameter types), bool_arg_exact, int_arg_is_python_int, "
-                  "path_arg_unchanged_without_tilde, path_arg_home, path_arg_roundtrip, expandUser_agrees_with_optmanager. Model tied to the code through CommandManager.execute on six "
+                  "path_arg_unchanged_without_tilde, path_arg_home, path_arg_roundtrip, expandUser_agrees_with_optmanager; Sequence[str] "
+                  "(split at commas + str.strip with the interpreter's whitespace table), CutSpec, Marker (emoji table regenerated from "
+                  "mitmproxy/utils/emoji.py), Choice (its options command's result as a parameter) and parameter DEFAULTS "
+                  "(bind + apply_defaults) are transcribed and tied too: str_seq_arg, cut_spec_arg, marker_arg_exact, choice_arg_exact, "
+                  "split_comma_join, execute_without_defaults, defaults_fill_exactly_the_missing, execute_with_defaults_delivers. Model tied to the code through CommandManager.execute on six "
                   "registered test commands, every line executed 1–3 times on one manager.")
     level_note = ("PARTIAL: the full statement is false for the code (three recorded findings with exact classifiers, see known_selftest); "
                   "proved under the guards named above. trusted: Lean kernel; differential tie (every execution's outcome, quote(), token "
                   "list); the pyparsing grammar, the escape regex and codecs.unicode-escape are transcribed by hand into Model/C45.lean "
                   "(validated by the tie, not verified against pyparsing/re/codecs); the Unicode name database of \\N{…} stays a parameter "
-                  "(four names in the driver); parameter defaults and the conversions that need the manager or the file system (Cmd, CutSpec, flows, Choice, "
-                  "Sequence[str] splitting, path completion) are not modelled; $HOME and the password database are parameters of the "
+                  "(four names in the driver); the conversions that need the manager's state or the file system (Cmd, Flow/Flows via the view, Data, path "
+                  "completion) are not modelled; a Choice's options are a parameter (the tie registers the options command); $HOME and the password database are parameters of the "
                   "path conversion (the tie fixes HOME=/h/me/ and the entry root→/root).")
     technique = "Lean 4 proof (induction over strings / argument lists) + differential correspondence through CommandManager.execute"
     rule = ("(a) every string of length <=3 (thorough <=4) over {a, space, \", ', \\, n, x} as one argument of a str-typed and of a "
@@ -267,6 +308,17 @@ class Check(PropertyCheck):
     trusted_base = ["pyparsing Regex/Word/CharsNotIn/ZeroOrMore, re and codecs 'unicode-escape' as modelled by hand (Model/C45.lean)",
                     "unicodedata name lookup behind \\N{…} (parameter UniDb)"]
     parallel = False
+
+    def translate(self):
+        """(T) the marker names _MarkerType accepts besides true/false: the keys of mitmproxy.utils.emoji.emoji"""
+        from mitmproxy.utils import emoji
+        names = list(emoji.emoji)
+        assert all(n.isascii() and " " not in n and '"' not in n and "\\" not in n for n in names)
+        return {"MitmVerif/Gen/C45.lean": "-- generated by harness/c45.py translate() from mitmproxy/utils/emoji.py; do not edit\n"
+                "namespace MitmVerif.Gen.C45\n\n/-- the emoji marker names, separated by blanks -/\ndef emojiText : String :=\n  \""
+                + " ".join(names) + "\"\n\n/-- the emoji marker names, as code points -/\n"
+                "def emojiNames : List (List Nat) := (emojiText.splitOn \" \").map fun n => n.toList.map Char.toNat\n\n"
+                "end MitmVerif.Gen.C45\n"}
 
     # ------------------------------------------------------------------ generator
     def _rand(self, rng, lo=0, hi=8):
@@ -311,6 +363,19 @@ class Check(PropertyCheck):
             for t in CONV_TEXTS[key]:
                 yield {"k": "conv", "ty": key, "args": [t]}
                 yield {"k": "conv", "ty": key, "args": ["".join(rng.pick(CONV_TEXTS[key]) for _ in range(2)), t]}
+        for key in ("q", "c", "m"):
+            for t in CONV_TEXTS[key]:
+                yield {"k": "conv", "ty": key, "args": [t]}
+                if key != "c": yield {"k": "conv", "ty": key, "args": [rng.pick(CONV_TEXTS[key]), t]}
+        for t in CONV_TEXTS["ch"]:
+            yield {"k": "conv", "ty": "ch", "args": [t]}
+            yield {"k": "conv", "ty": "ch", "args": [t, "x\\ny", t]}
+        # parameter defaults: every number of arguments from none to one too many
+        for n in range(0, 5):
+            for a in (["x", "y", "5", "z", "w"], ["'\"", "b c", "007", "t", "u"], ["a", "", "x1", "q", "r"]):
+                yield {"k": "conv", "ty": "d", "args": a[:n]}
+            for a in (["v", "true", "r1", "r2", "r3"], ["v", "nope", "r1", "r2", "r3"], ["'\"", "false", "C:\\new", "", "x"]):
+                yield {"k": "conv", "ty": "dr", "args": a[:n]}
         for a in CONV_TEXTS["i"][:8]:
             for b in CONV_TEXTS["b"][:4]:
                 for c in CONV_TEXTS["p"][:8]:
@@ -555,6 +620,7 @@ class Check(PropertyCheck):
 
     @staticmethod
     def _show(a):
+        if isinstance(a, list): return "l:" + ",".join(enc(x) for x in a)
         if isinstance(a, bool): return "b:1" if a else "b:0"
         if isinstance(a, int): return "i:%d" % a
         return enc(a)
